@@ -140,7 +140,7 @@ fn run_shipped(case: u64, rng: &mut Rng, ev: &mut Ev) {
 
 pub fn run_case(ctx: &Ctx, case: u64, ev: &mut Ev) {
     let mut rng = Rng::derive(ctx.seed, "C01", case);
-    rng.big = ctx.tier == crate::Tier::Thorough && rng.chance(0.2);
+    rng.big = crate::draw_big(ctx, &mut rng);
     if case % 2500 == 1249 {
         run_shipped(case, &mut rng, ev);
         return;
